@@ -280,9 +280,16 @@ fn trial(w: &mut World, models: &BTreeMap<usize, Model>, shape: Shape) -> Result
     for _ in 0..n {
         let ext = shape == Shape::External || w.rng.chance(1, 2);
         if ext {
-            let idlen = w.rng.range(1, 20);
+            // (distinct ids within a trial: the stores are keyed by id)
+            let id = loop {
+                let idlen = w.rng.range(1, 20);
+                let id = w.rng.bytes(idlen);
+                if !items.iter().any(|i| matches!(i, Item::External { id: other, .. } if *other == id)) {
+                    break id;
+                }
+            };
             items.push(Item::External {
-                id: w.rng.bytes(idlen),
+                id,
                 same: {
                     let l = w.rng.range(1, 64);
                     w.rng.bytes(l)
